@@ -121,6 +121,11 @@ claim('C18', 'monitors on the real ConeCyl: geometry identities after _rebuild, 
       '(surface quadrature) and torque on the reported displacement field with the prescribed-displacement columns moved to the right-hand side; affine dependence on the load factor and fext(0) = constant loads; the observed solve call of static() must use k0uu and calc_fext(1) and satisfy K_uu c_u = f_u.',
       'torque judged for bc1/bc2 variants only (point-force and line-load readings coincide there); FSDT pressure is a rejection (NotImplementedError)', '4/C18')
 
+claim('C17', 'polynomial-exact differencing monitor on ConeCyl.calc_fint / calc_kT with identical integration settings; separate executions for thread counts and integration rules',
+      'For the 12 non-linear-capable shell models, cylinders and cones, trapezoid and Simpson rules, 1..8 threads: fint(0)=0, the linear coefficient of t->fint(t c) equals k0uu c, kTuu symmetric, kTuu dc equals the exact 5-point-stencil derivative of fint for random directions, '
+      'fint and kT agree across thread counts to 1e-11 and repeat bit-exactly at a fixed count.',
+      'fint polynomial of degree <= 4 in the amplitudes (checked per case); imperfection coefficients c0 are not exercised (stated in DESIGN section 8)', '4/C17')
+
 ALL = ['C%02d' % i for i in range(1, 21)]
 PENDING_REASON = 'check not built yet in this round (runtime-monitoring plan in DESIGN.md section 4); will be claimed once its monitor runs silent on the unchanged tree'
 
